@@ -39,6 +39,33 @@ theorem log2_floor_arith {ℓ : ℝ} (hℓabs : |ℓ| ≤ 1001) :
   linarith
 
 
+/-- arithmetic behind the `log2` floor, with the `exp2` accuracy `5640u²` of the wider range: the assembled Newton bound `0.7·(0.7·(η₀ + 2^-50)² + D)² + D` with
+`η₀ = 2^-24`, `D = 1.4431·5640u² + 11u² + 4u²·|ℓ|`, `|ℓ| ≤ 1001`, is at most `2^-101·|ℓ| + 2^-92` -/
+theorem log2_floor_arithW {ℓ : ℝ} (hℓabs : |ℓ| ≤ 1001) :
+    7 / 10 * (7 / 10 * ((1 : ℝ) / 2 ^ 24 + 1 / 2 ^ 50) ^ 2 + (14431 / 10000 * (5640 / 2 ^ 106) + 11 / 2 ^ 106
+          + 4 / 2 ^ 106 * |ℓ|)) ^ 2
+        + (14431 / 10000 * (5640 / 2 ^ 106) + 11 / 2 ^ 106 + 4 / 2 ^ 106 * |ℓ|)
+      ≤ 1 / 2 ^ 101 * |ℓ| + 1 / 2 ^ 92 := by
+  have hLa := abs_nonneg ℓ
+  set D := (14431 : ℝ) / 10000 * (5640 / 2 ^ 106) + 11 / 2 ^ 106 + 4 / 2 ^ 106 * |ℓ| with hD
+  have hD0 : 0 ≤ D := by positivity
+  have hDs : D ≤ 12200 / 2 ^ 106 := by
+    have h2 : (4 : ℝ) / 2 ^ 106 * |ℓ| ≤ 4 / 2 ^ 106 * 1001 := mul_le_mul_of_nonneg_left hℓabs (by positivity)
+    have : (14431 : ℝ) / 10000 * (5640 / 2 ^ 106) + 11 / 2 ^ 106 + 4 / 2 ^ 106 * 1001 ≤ 12200 / 2 ^ 106 := by norm_num
+    linarith
+  have hT : 7 / 10 * ((1 : ℝ) / 2 ^ 24 + 1 / 2 ^ 50) ^ 2 + D ≤ 1 / 2 ^ 48 := by
+    have : 7 / 10 * ((1 : ℝ) / 2 ^ 24 + 1 / 2 ^ 50) ^ 2 + 12200 / 2 ^ 106 ≤ 1 / 2 ^ 48 := by norm_num
+    linarith
+  have hT0 : 0 ≤ 7 / 10 * ((1 : ℝ) / 2 ^ 24 + 1 / 2 ^ 50) ^ 2 + D := by positivity
+  have hsq : (7 / 10 * ((1 : ℝ) / 2 ^ 24 + 1 / 2 ^ 50) ^ 2 + D) ^ 2 ≤ (1 / 2 ^ 48) ^ 2 :=
+    pow_le_pow_left₀ hT0 hT 2
+  have e1 : (7 : ℝ) / 10 * (1 / 2 ^ 48) ^ 2 ≤ 717 / 2 ^ 106 := by norm_num
+  have e2 : (14431 : ℝ) / 10000 * (5640 / 2 ^ 106) + 11 / 2 ^ 106 + 717 / 2 ^ 106 ≤ 1 / 2 ^ 92 := by norm_num
+  have e3 : (4 : ℝ) / 2 ^ 106 * |ℓ| ≤ 1 / 2 ^ 101 * |ℓ| := mul_le_mul_of_nonneg_right (by norm_num) hLa
+  rw [hD] at hsq ⊢
+  linarith
+
+
 /-! ## 1. the exactly evaluated kernel against `k·log 2 + log (1 + f)`, sharper than `LnSeed.G_approx` -/
 
 section seed
@@ -1342,7 +1369,7 @@ theorem ln1p_step {v x : TwoFloat} {dM G : ℝ} (hv : VW v) (hx : VW x)
     (hκ : dM * G ≤ 1 / 2 ^ 40)
     (hE : VW (TwoFloat.exp_m1 x) ∧
       |rv (TwoFloat.exp_m1 x) - (Real.exp (rv x) - 1)| ≤ dM * |Real.exp (rv x) - 1|) :
-    VW (arithmetic.impl_Sub_TwoFloat_for_TwoFloat.sub x (corr1p v x)) ∧
+    VW (corr1p v x) ∧ VW (arithmetic.impl_Sub_TwoFloat_for_TwoFloat.sub x (corr1p v x)) ∧
     ∃ qa : ℝ, 0 ≤ qa ∧ qa ≤ 1 / 2 ^ 969 ∧
       qa ≤ 1 / 2 ^ 36 * (|rv x - Real.log (1 + rv v)| + (rv x - Real.log (1 + rv v)) ^ 2
               + dM * G * (1 + 1 / 2 ^ 18)) + 1 / 2 ^ 1017 ∧
@@ -1486,7 +1513,7 @@ theorem ln1p_step {v x : TwoFloat} {dM G : ℝ} (hv : VW v) (hx : VW x)
   rw [hxe] at hX
   obtain ⟨r1, r2⟩ := newton_real hA hc0 hce hc1 hdM hG hG0 hκ hEe hN hD0 (by positivity) (by norm_num) hQ hX
   have hmin0 : 0 ≤ min |rv Nx / rv Dx| (1 / 2 ^ 933) := le_min (abs_nonneg _) (by positivity)
-  refine ⟨Xvw, _, add_nonneg (mul_nonneg (by norm_num) hmin0) (by positivity), ?_, ?_, r1⟩
+  refine ⟨Qvw, Xvw, _, add_nonneg (mul_nonneg (by norm_num) hmin0) (by positivity), ?_, ?_, r1⟩
   · have m1 : min |rv Nx / rv Dx| (1 / 2 ^ 933) ≤ 1 / 2 ^ 933 := min_le_right _ _
     have m2 : (1 : ℝ) / 2 ^ 37 * min |rv Nx / rv Dx| (1 / 2 ^ 933) ≤ 1 / 2 ^ 37 * (1 / 2 ^ 933) :=
       mul_le_mul_of_nonneg_left m1 (by norm_num)
@@ -1505,5 +1532,677 @@ theorem ln1p_step {v x : TwoFloat} {dM G : ℝ} (hv : VW v) (hx : VW x)
     linarith
 
 end step
+
+
+/-! ## 9. `exp2` on the wider range `[−961, 1001]` (needed for `log2` of high words up to `2^960` and down to `2^-1000`)
+
+The three statements below are `Exp2Bound.scale_pow2`, `final_real`, `exp2_bound_main` with the range constants changed. -/
+
+section exp2wide
+open F64 TwoFloat Exp2Bound
+
+/-- scaling both words of `t ∈ [1/4, 4]` by the double `2^j·2^-1074` (`104 ≤ j ≤ 2075`, i.e. `2^-970 … 2^1001`; `Exp2Bound.scale_pow2` with a wider range)
+followed by Fast2Sum: the high product is exact, the low product is one rounding -/
+theorem scale_pow2W {t : TwoFloat} (ht : VW t) (h1 : 1 / 4 ≤ rv t) (h2 : rv t ≤ 4) (j : ℕ) (hj1 : 104 ≤ j)
+    (hj2 : j ≤ 2075) :
+    VW (arithmetic.fast_two_sum (F64.mul t.hi (fin false (2 ^ j))) (F64.mul t.lo (fin false (2 ^ j)))) ∧
+    |rv (arithmetic.fast_two_sum (F64.mul t.hi (fin false (2 ^ j))) (F64.mul t.lo (fin false (2 ^ j))))
+        - rv t * (2 ^ j / 2 ^ 1074)|
+      ≤ 1001 / 1000 / 2 ^ 106 * (rv t * (2 ^ j / 2 ^ 1074)) + 1 / 2 ^ 1075 := by
+  have hpos : 0 < rv t := by linarith
+  have habs : |rv t| = rv t := abs_of_pos hpos
+  obtain ⟨w1, w2, -, -⟩ := hi_window ht.1 (p := 2) (q := 2) (by norm_num) (by rw [habs]; norm_num; linarith)
+    (by rw [habs]; norm_num; linarith)
+  norm_num at w1 w2
+  have hUi := unit_pos_int
+  have hUe : (unit : Int) = 2 ^ 1074 := C01d.unit_int_eq
+  have hM : (2 : Int) ^ 2097 ≤ (maxFin : Int) := two_pow_2097_le_maxFin_int
+  -- the power of two as a double
+  have hPv : IsVal (fin false (2 ^ j)) ((2 : Int) ^ j) := ⟨rfl, by show ((2 ^ j : Nat) : Int) = _; push_cast; rfl⟩
+  have hPpos : (0 : Int) < 2 ^ j := by positivity
+  have hPle : (2 : Int) ^ j ≤ 2 ^ 2075 := pow_le_pow_right₀ (by norm_num) hj2
+  -- the high word is a multiple of 2^970
+  have hdvd : (2 : Int) ^ 970 ∣ t.hi.toInt := by
+    apply dvd_hi_of_large ht.2
+    have : (2 : Int) ^ 1071 ≤ |t.hi.toInt| := w1
+    rw [← Int.natCast_natAbs] at this
+    have h3 : 2 ^ 1071 ≤ t.hi.toInt.natAbs := by exact_mod_cast this
+    exact le_trans (by norm_num) h3
+  obtain ⟨h', hh'⟩ := hdvd
+  have hh'r : RepI h' := by
+    have := ht.2.1.repI
+    rw [hh', mul_comm] at this
+    exact repI_mul_pow2_iff.1 this
+  have hHU : t.hi.toInt * 2 ^ j = (h' * 2 ^ (j - 104)) * (unit : Int) := by
+    rw [hh', hUe]
+    have e : (2 : Int) ^ 970 * h' * 2 ^ j = h' * (2 ^ 970 * 2 ^ j) := by ring
+    have e2 : h' * 2 ^ (j - 104) * 2 ^ 1074 = h' * (2 ^ (j - 104) * 2 ^ 1074) := by ring
+    have e3 : 970 + j = (j - 104) + 1074 := by omega
+    rw [e, e2, ← pow_add, ← pow_add, e3]
+  set H := h' * 2 ^ (j - 104) with hH
+  have hHabsU : |H| * (unit : Int) = |t.hi.toInt| * 2 ^ j := by
+    rw [← abs_mul_pos_right _ hUi, ← hHU, abs_mul_pos_right _ hPpos]
+  have hHhi : |H| ≤ 2 ^ 2078 := by
+    have : |H| * (unit : Int) ≤ 2 ^ 1077 * 2 ^ 2075 := by
+      rw [hHabsU]; exact mul_le_mul w2 hPle hPpos.le (by positivity)
+    rw [hUe] at this
+    have e : (2 : Int) ^ 1077 * 2 ^ 2075 = 2 ^ 2078 * 2 ^ 1074 := by rw [← pow_add, ← pow_add]
+    rw [e] at this
+    exact le_of_mul_le_mul_right this (by positivity)
+  have hA : IsVal (F64.mul t.hi (fin false (2 ^ j))) H :=
+    (IsVal.of_finite ht.1.1).mul_exact hPv hHU (repI_mul_pow2_iff.2 hh'r)
+      (le_trans hHhi (le_trans (by norm_num) hM))
+  -- the low word
+  have hxl := two_pow_mul_abs_le_of_half_ulp ht.1.two_mul_abs_lo_le
+  have hloP : |t.lo.toInt * 2 ^ j| ≤ 2 ^ 2025 * (unit : Int) := by
+    rw [abs_mul_pos_right _ hPpos, hUe]
+    have hl : |t.lo.toInt| ≤ 2 ^ 1024 := by
+      have := abs_nonneg t.lo.toInt
+      norm_num at hxl w2 ⊢
+      omega
+    calc |t.lo.toInt| * 2 ^ j ≤ 2 ^ 1024 * 2 ^ 2075 := mul_le_mul hl hPle hPpos.le (by positivity)
+      _ = 2 ^ 2025 * 2 ^ 1074 := by rw [← pow_add, ← pow_add]
+  have hB : IsVal (F64.mul t.lo (fin false (2 ^ j))) (rqI (t.lo.toInt * 2 ^ j) unit) := by
+    have := mul_spec ht.1.2.1 hPv.1 (by
+      rw [hPv.2]; exact roundQ_le_maxFin_of_abs_le 2025 (by norm_num) unit_pos hloP)
+    rw [hPv.2] at this
+    exact this
+  set L := rqI (t.lo.toInt * 2 ^ j) unit with hL
+  have eL := rqI_err_gen (t.lo.toInt * 2 ^ j) unit_pos
+  rw [← hL] at eL
+  have hAlo : 2 ^ 53 * |t.lo.toInt * 2 ^ j| ≤ |H| * (unit : Int) := by
+    rw [hHabsU, abs_mul_pos_right _ hPpos]
+    have := mul_le_mul_of_nonneg_right hxl hPpos.le
+    linarith
+  have hLH : |L| ≤ |H| := by
+    by_contra hc
+    have hc' : (|H| + 1) * (unit : Int) ≤ |L| * (unit : Int) := mul_le_mul_of_nonneg_right (by omega) hUi.le
+    rw [add_mul, one_mul] at hc'
+    have t1 : |L| * (unit : Int) ≤ |L * (unit : Int) - t.lo.toInt * 2 ^ j| + |t.lo.toInt * 2 ^ j| := by
+      have := abs_add_le (L * (unit : Int) - t.lo.toInt * 2 ^ j) (t.lo.toInt * 2 ^ j)
+      rw [show L * (unit : Int) - t.lo.toInt * 2 ^ j + t.lo.toInt * 2 ^ j = L * (unit : Int) by ring,
+        abs_mul_pos_right _ hUi] at this
+      exact this
+    have hn := abs_nonneg H
+    have hHU0 : 0 ≤ |H| * (unit : Int) := mul_nonneg hn hUi.le
+    generalize |L * (unit : Int) - t.lo.toInt * 2 ^ j| = E at *
+    generalize |t.lo.toInt * 2 ^ j| = A at *
+    generalize |H| * (unit : Int) = HU at *
+    generalize |L| * (unit : Int) = LU at *
+    generalize (unit : Int) = U at *
+    linarith
+  have hf2 := fast_two_sum_words hA.1 hB.1 (mul_WF _ _) (mul_WF _ _)
+    (by rw [hA.2, hB.2]; exact hLH)
+    (by
+      rw [hA.2, hB.2]
+      apply rn53_natAbs_le_maxFin
+      have := abs_add_le H L
+      have e : (2 : Int) * 2 ^ 2078 ≤ 2 ^ 2097 := by norm_num
+      omega)
+  rw [hA.2, hB.2] at hf2
+  obtain ⟨-, pV, pValid, pWF⟩ := eft_package hf2.1 hf2.2 (fast_two_sum_WF _ _).1 (fast_two_sum_WF _ _).2
+  refine ⟨⟨pValid, pWF⟩, ?_⟩
+  generalize arithmetic.fast_two_sum (F64.mul t.hi (fin false (2 ^ j))) (F64.mul t.lo (fin false (2 ^ j))) = R at *
+  -- to the reals
+  obtain ⟨b1, -⟩ := PowiBound.hi_bounds ht.1
+  have hUr : (0 : ℝ) < 2 ^ 1074 := by positivity
+  have hPr : (0 : ℝ) < 2 ^ j := by positivity
+  rw [hUe] at eL hHU
+  have r1 : (2 : ℝ) ^ 53 * |(L : ℝ) * 2 ^ 1074 - (t.lo.toInt : ℝ) * 2 ^ j| ≤ 2 ^ 52 * 2 ^ 1074
+      + |(t.lo.toInt : ℝ) * 2 ^ j| := by exact_mod_cast eL
+  have r2 : (t.hi.toInt : ℝ) * 2 ^ j = (H : ℝ) * 2 ^ 1074 := by exact_mod_cast hHU
+  have r3 : ((2 : ℝ) ^ 53 - 1) * |(t.hi.toInt : ℝ)| ≤ 2 ^ 53 * |(t.V : ℝ)| := by exact_mod_cast b1
+  have r4 : (2 : ℝ) ^ 53 * |(t.lo.toInt : ℝ)| ≤ |(t.hi.toInt : ℝ)| := by exact_mod_cast hxl
+  have hVt : (t.V : ℝ) = (t.hi.toInt : ℝ) + (t.lo.toInt : ℝ) := by unfold TwoFloat.V; push_cast; ring
+  have hVR : (R.V : ℝ) = (H : ℝ) + (L : ℝ) := by exact_mod_cast pV
+  have hVpos : (0 : ℝ) < (t.V : ℝ) := by
+    have : rv t = (t.V : ℝ) / 2 ^ 1074 := rfl
+    rw [this] at hpos
+    exact (div_pos_iff_of_pos_right hUr).1 hpos
+  unfold rv
+  have e1 : (R.V : ℝ) / 2 ^ 1074 - (t.V : ℝ) / 2 ^ 1074 * (2 ^ j / 2 ^ 1074)
+      = ((L : ℝ) * 2 ^ 1074 - (t.lo.toInt : ℝ) * 2 ^ j) / (2 ^ 1074 * 2 ^ 1074) := by
+    rw [hVR, hVt]; field_simp; linarith
+  have e2 : (t.V : ℝ) / 2 ^ 1074 * (2 ^ j / 2 ^ 1074) = ((t.V : ℝ) * 2 ^ j) / (2 ^ 1074 * 2 ^ 1074) := by
+    field_simp
+  have e3 : (1 : ℝ) / 2 ^ 1075 = (2 ^ 1074 / 2) / (2 ^ 1074 * 2 ^ 1074) := by
+    rw [show (2 : ℝ) ^ 1075 = 2 ^ 1074 * 2 by norm_num]; field_simp
+  rw [e1, e2, e3, abs_div, abs_of_pos (by positivity : (0 : ℝ) < 2 ^ 1074 * 2 ^ 1074), ← mul_div_assoc, ← add_div,
+    div_le_div_iff_of_pos_right (by positivity)]
+  rw [abs_mul, abs_of_pos hPr] at r1
+  rw [abs_of_pos hVpos] at r3
+  generalize |(L : ℝ) * 2 ^ 1074 - (t.lo.toInt : ℝ) * 2 ^ j| = E at *
+  generalize |(t.lo.toInt : ℝ)| = A at *
+  have hB0 : 0 ≤ |(t.hi.toInt : ℝ)| := abs_nonneg _
+  generalize |(t.hi.toInt : ℝ)| = B at *
+  generalize (t.V : ℝ) = W at *
+  generalize (2 : ℝ) ^ j = P at *
+  generalize (2 : ℝ) ^ 1074 = U at *
+  have k1 : E ≤ U / 2 + A * P / 2 ^ 53 := by
+    rw [show U / 2 + A * P / 2 ^ 53 = (2 ^ 52 * U + A * P) / 2 ^ 53 by ring, le_div_iff₀ (by positivity)]
+    linarith
+  have k2 : A ≤ B / 2 ^ 53 := by rw [le_div_iff₀ (by positivity)]; linarith
+  have k3 : B ≤ 2 ^ 53 / (2 ^ 53 - 1) * W := by
+    rw [div_mul_eq_mul_div, le_div_iff₀ (by norm_num)]; linarith
+  have k4 : A * P / 2 ^ 53 ≤ 1001 / 1000 / 2 ^ 106 * (W * P) := by
+    have h3 : A ≤ (2 ^ 53 / (2 ^ 53 - 1) * W) / 2 ^ 53 :=
+      le_trans k2 (div_le_div_of_nonneg_right k3 (by positivity))
+    have h4 : A * P / 2 ^ 53 ≤ ((2 ^ 53 / (2 ^ 53 - 1) * W) / 2 ^ 53) * P / 2 ^ 53 :=
+      div_le_div_of_nonneg_right (mul_le_mul_of_nonneg_right h3 hPr.le) (by positivity)
+    have h5 : ((2 ^ 53 / (2 ^ 53 - 1) * W) / 2 ^ 53) * P / 2 ^ 53
+        = (2 ^ 53 / (2 ^ 53 - 1) / 2 ^ 53 / 2 ^ 53) * (W * P) := by ring
+    have h6 : (2 : ℝ) ^ 53 / (2 ^ 53 - 1) / 2 ^ 53 / 2 ^ 53 ≤ 1001 / 1000 / 2 ^ 106 := by norm_num
+    have h7 : (2 ^ 53 / (2 ^ 53 - 1) / 2 ^ 53 / 2 ^ 53) * (W * P) ≤ 1001 / 1000 / 2 ^ 106 * (W * P) :=
+      mul_le_mul_of_nonneg_right h6 (by positivity)
+    linarith
+  linarith
+
+
+/-- real-number core of the last step -/
+theorem final_realW {res t E S eps : ℝ} (hE : 3 / 10 ≤ E) (hS : 1 / 2 ^ 970 ≤ S) (ht : |t - E| ≤ eps * E)
+    (_heps0 : 0 ≤ eps) (heps : eps ≤ 5631 / 2 ^ 106)
+    (hres : |res - t * S| ≤ 1001 / 1000 / 2 ^ 106 * (t * S) + 1 / 2 ^ 1075) :
+    |res - E * S| ≤ 5640 / 2 ^ 106 * (E * S) := by
+  have hE0 : 0 < E := by linarith
+  have hS0 : 0 < S := lt_of_lt_of_le (by positivity) hS
+  have hG : 0 < E * S := mul_pos hE0 hS0
+  have hGlo : 3 / 10 * (1 / 2 ^ 970) ≤ E * S := mul_le_mul hE hS (by positivity) hE0.le
+  obtain ⟨t1, t2⟩ := abs_le.1 ht
+  have htS : t * S ≤ (1 + eps) * (E * S) := by
+    have : t ≤ (1 + eps) * E := by linarith
+    calc t * S ≤ (1 + eps) * E * S := mul_le_mul_of_nonneg_right this hS0.le
+      _ = (1 + eps) * (E * S) := by ring
+  have h1 : |t * S - E * S| ≤ eps * (E * S) := by
+    rw [← sub_mul, abs_mul, abs_of_pos hS0]
+    calc |t - E| * S ≤ eps * E * S := mul_le_mul_of_nonneg_right ht hS0.le
+      _ = eps * (E * S) := by ring
+  have h2 := abs_add_le (res - t * S) (t * S - E * S)
+  rw [show res - t * S + (t * S - E * S) = res - E * S by ring] at h2
+  have h3 : (1001 : ℝ) / 1000 / 2 ^ 106 * (t * S) ≤ 1001 / 1000 / 2 ^ 106 * ((1 + eps) * (E * S)) :=
+    mul_le_mul_of_nonneg_left htS (by positivity)
+  have h4 : (1 : ℝ) / 2 ^ 1075 ≤ 7 / 2 ^ 106 * (E * S) := by
+    have : (7 : ℝ) / 2 ^ 106 * (3 / 10 * (1 / 2 ^ 970)) ≤ 7 / 2 ^ 106 * (E * S) :=
+      mul_le_mul_of_nonneg_left hGlo (by positivity)
+    refine le_trans ?_ this
+    norm_num
+  have h5 : (1001 : ℝ) / 1000 / 2 ^ 106 * ((1 + eps) * (E * S)) ≤ 1002 / 1000 / 2 ^ 106 * (E * S) := by
+    rw [← mul_assoc]
+    refine mul_le_mul_of_nonneg_right ?_ hG.le
+    have : (1001 : ℝ) / 1000 / 2 ^ 106 * (1 + eps) ≤ 1001 / 1000 / 2 ^ 106 * (1 + 5631 / 2 ^ 106) :=
+      mul_le_mul_of_nonneg_left (by linarith) (by positivity)
+    refine le_trans this ?_
+    norm_num
+  have h6 : eps * (E * S) ≤ 5631 / 2 ^ 106 * (E * S) := mul_le_mul_of_nonneg_right heps hG.le
+  have e : (5640 : ℝ) / 2 ^ 106 * (E * S)
+      = 1002 / 1000 / 2 ^ 106 * (E * S) + 7 / 2 ^ 106 * (E * S) + 5631 / 2 ^ 106 * (E * S)
+        + 998 / 1000 / 2 ^ 106 * (E * S) := by ring
+  have h7 : (0 : ℝ) ≤ 998 / 1000 / 2 ^ 106 * (E * S) := by positivity
+  linarith
+
+/-- **accuracy of `TwoFloat::exp2` on the wider range `−961 ≤ x ≤ 1001`** (`Exp2Bound.exp2_bound_main` has `[−900, 1000]`):
+relative `5640u²` (the rounding of the scaled low word in the subnormal range costs `7u²` instead of `0.001u²`) -/
+theorem exp2_bound_wide (x : TwoFloat) (hv : x.Valid) (hw : x.WF) (hlo : -961 ≤ rv x) (hhi : rv x ≤ 1001) :
+    VW (TwoFloat.exp2 x) ∧
+    |rv (TwoFloat.exp2 x) - Real.exp (rv x * Real.log 2)| ≤ 5640 / 2 ^ 106 * Real.exp (rv x * Real.log 2) := by
+  have hU : (0 : ℝ) < 2 ^ 1074 := by positivity
+  have hUi := unit_pos_int
+  have hUe : (unit : Int) = 2 ^ 1074 := C01d.unit_int_eq
+  -- integer bounds on the value and on the words
+  have hV1 : -961 * 2 ^ 1074 ≤ x.V := by
+    have h : (-961 : ℝ) * 2 ^ 1074 ≤ (x.V : ℝ) := by
+      have := hlo; unfold rv at this; rwa [le_div_iff₀ hU] at this
+    exact_mod_cast h
+  have hV2 : x.V ≤ 1001 * 2 ^ 1074 := by
+    have h : (x.V : ℝ) ≤ 1001 * 2 ^ 1074 := by
+      have := hhi; unfold rv at this; rwa [div_le_iff₀ hU] at this
+    exact_mod_cast h
+  have hxl := two_pow_mul_abs_le_of_half_ulp hv.two_mul_abs_lo_le
+  obtain ⟨b1, -⟩ := PowiBound.hi_bounds hv
+  have e1074 : (2 : ℤ) ^ 1074 = 2 ^ 53 * 2 ^ 1021 := by norm_num
+  have hT : (0 : ℤ) < 2 ^ 1021 := by positivity
+  have hVabs : |x.V| ≤ 1001 * 2 ^ 1074 := abs_le.2 ⟨by linarith, hV2⟩
+  have hhiabs : |x.hi.toInt| ≤ 1002 * 2 ^ 1074 := by
+    rw [e1074] at hVabs ⊢
+    generalize (2 : ℤ) ^ 1021 = T at *
+    have := abs_nonneg x.hi.toInt
+    norm_num at b1 ⊢
+    omega
+  have hloabs : |x.lo.toInt| ≤ 1002 * 2 ^ 1021 := by
+    rw [e1074] at hhiabs
+    generalize (2 : ℤ) ^ 1021 = T at *
+    have := abs_nonneg x.lo.toInt
+    norm_num at hxl ⊢
+    omega
+  rw [C14p.exp2_unfold]
+  -- the two range tests
+  have c1 : ROrd.isLt (base.impl_PartialOrd_f64_for_TwoFloat.partial_cmp x
+      (F64.neg (f64lit 0x4090c80000000000))) = false := by
+    rw [C14p.lit_m1074, partial_cmp_tf_exact_of F64.roundFacts hv
+      (show (fin true (1074 * F64.unit)).WF by decide +kernel) rfl, Bool.eq_false_iff]
+    intro hc
+    have := ROrd.isLt_ofInts.1 hc
+    have e : (fin true (1074 * F64.unit)).toInt = -1074 * (F64.unit : Int) := by
+      show -((1074 * F64.unit : Nat) : Int) = _; push_cast; ring
+    rw [e, hUe] at this
+    have hP : (0 : ℤ) < 2 ^ 1074 := by positivity
+    generalize (2 : ℤ) ^ 1074 = P at *
+    omega
+  have c2 : ROrd.isGe (base.impl_PartialOrd_f64_for_TwoFloat.partial_cmp x
+      (f64lit 0x408ff80000000000)) = false := by
+    rw [C14p.lit_1023, partial_cmp_tf_exact_of F64.roundFacts hv
+      (show (fin false (1023 * F64.unit)).WF by decide +kernel) rfl, Bool.eq_false_iff]
+    intro hc
+    have := ROrd.isGe_ofInts.1 hc
+    have e : (fin false (1023 * F64.unit)).toInt = 1023 * (F64.unit : Int) := by
+      show ((1023 * F64.unit : Nat) : Int) = _; push_cast; ring
+    rw [e, hUe] at this
+    have hP : (0 : ℤ) < 2 ^ 1074 := by positivity
+    generalize (2 : ℤ) ^ 1074 = P at *
+    omega
+  rw [c1, c2, if_neg Bool.false_ne_true, if_neg Bool.false_ne_true]
+  -- k = round(x.hi)
+  obtain ⟨q, kf, kq, knear, -⟩ := round_val hv.1
+  rw [hUe] at kq knear
+  have kWF : (F64.round x.hi).WF := C08.WF_round hw.1
+  have hVhl : x.V = x.hi.toInt + x.lo.toInt := rfl
+  have hnearV : 2 * |x.V - q * 2 ^ 1074| ≤ 2 ^ 1074 + 2004 * 2 ^ 1021 := by
+    have e : x.V - q * 2 ^ 1074 = -(q * 2 ^ 1074 - x.hi.toInt) + x.lo.toInt := by rw [hVhl]; ring
+    have := abs_add_le (-(q * 2 ^ 1074 - x.hi.toInt)) x.lo.toInt
+    rw [abs_neg, ← e] at this
+    linarith
+  have hUT : (2 : ℤ) ^ 1074 = 9007199254740992 * 2 ^ 1021 := by norm_num
+  have hq1 : -961 ≤ q := by
+    have h1 : (-962) * (2 : ℤ) ^ 1074 < q * 2 ^ 1074 := by
+      have := le_abs_self (x.V - q * 2 ^ 1074)
+      clear hVabs hhiabs hloabs e1074 kq knear hUe hVhl b1 hxl
+      generalize q * (2 : ℤ) ^ 1074 = QU at *
+      generalize (2 : ℤ) ^ 1074 = U at *
+      generalize (2 : ℤ) ^ 1021 = T at *
+      generalize |x.V - QU| = D at *
+      omega
+    have := lt_of_mul_lt_mul_right h1 (by positivity : (0 : ℤ) ≤ 2 ^ 1074)
+    omega
+  have hq2 : q ≤ 1001 := by
+    have h1 : q * (2 : ℤ) ^ 1074 < 1002 * 2 ^ 1074 := by
+      have := neg_abs_le (x.V - q * 2 ^ 1074)
+      clear hVabs hhiabs hloabs e1074 kq knear hUe hVhl b1 hxl
+      generalize q * (2 : ℤ) ^ 1074 = QU at *
+      generalize (2 : ℤ) ^ 1074 = U at *
+      generalize (2 : ℤ) ^ 1021 = T at *
+      generalize |x.V - QU| = D at *
+      omega
+    have := lt_of_mul_lt_mul_right h1 (by positivity : (0 : ℤ) ≤ 2 ^ 1074)
+    omega
+  -- δ = x − k
+  have hfvk : fv (F64.round x.hi) = (q : ℝ) := by
+    unfold fv; rw [kq]
+    simp only [Int.cast_mul, Int.cast_pow, Int.cast_ofNat]
+    exact mul_div_cancel_right₀ (q : ℝ) (by positivity : ((2 : ℝ) ^ 1074) ≠ 0)
+  set δ := rv x - (q : ℝ) with hδ
+  have hδabs : |δ| ≤ 501 / 1000 := by
+    have h : (2 : ℝ) * |(x.V : ℝ) - (q : ℝ) * 2 ^ 1074| ≤ 2 ^ 1074 + 2004 * 2 ^ 1021 := by exact_mod_cast hnearV
+    have e : δ = ((x.V : ℝ) - (q : ℝ) * 2 ^ 1074) / 2 ^ 1074 := by
+      rw [hδ]; unfold rv; field_simp
+    rw [e, abs_div, abs_of_pos hU, div_le_iff₀ hU]
+    have e2 : (2 : ℝ) ^ 1074 = 2 ^ 53 * 2 ^ 1021 := by norm_num
+    rw [e2] at h ⊢
+    have hT' : (0 : ℝ) < 2 ^ 1021 := by positivity
+    generalize (2 : ℝ) ^ 1021 = T at *
+    norm_num at h ⊢
+    linarith
+  have hxabs : |rv x| ≤ 2 ^ 1000 := by
+    have : |rv x| ≤ 1001 := abs_le.2 ⟨by linarith, hhi⟩
+    exact le_trans this (by norm_num)
+  have hkb : (F64.round x.hi).toInt.natAbs < 2 ^ 2095 := by
+    rw [kq]
+    apply natAbs_lt_of_abs_lt
+    rw [abs_mul, abs_of_pos (by positivity : (0 : ℤ) < 2 ^ 1074)]
+    have : |q| ≤ 1001 := abs_le.2 ⟨by omega, hq2⟩
+    calc |q| * 2 ^ 1074 ≤ 1001 * 2 ^ 1074 := by nlinarith
+      _ < 2 ^ 2095 := by norm_num
+  obtain ⟨svw, hs⟩ := sub_tf_rv ⟨hv, hw⟩ kf kWF hxabs hkb
+  rw [hfvk] at hs
+  generalize hsdef : arithmetic.impl_Sub_f64_for_TwoFloat.sub x (F64.round x.hi) = s at *
+  -- m = s · LN_2
+  obtain ⟨lnvw, hl⟩ := LN_2_vw
+  obtain ⟨l1, l2⟩ := log_two_range
+  have hsabs : |rv s| ≤ 1 := by
+    have := abs_sub_abs_le_abs_sub (rv s) δ
+    have h2 : (1 : ℝ) / 2 ^ 105 * |δ| ≤ 1 / 2 ^ 105 * (501 / 1000) := mul_le_mul_of_nonneg_left hδabs (by positivity)
+    have e : (1 : ℝ) / 2 ^ 105 * (501 / 1000) + 501 / 1000 ≤ 1 := by norm_num
+    linarith
+  have hlabs : |rv consts.LN_2| ≤ 1 := by
+    have := abs_sub_abs_le_abs_sub (rv consts.LN_2) (Real.log 2)
+    rw [abs_sub_comm] at hl
+    rw [abs_of_pos (by linarith : (0 : ℝ) < Real.log 2)] at this hl
+    have : Real.log 2 / 2 ^ 107 ≤ 1 / 10 := by
+      rw [div_le_iff₀ (by positivity)]; norm_num; linarith
+    linarith
+  have hprod : |rv s * rv consts.LN_2| ≤ 2 ^ 1019 := by
+    rw [abs_mul]
+    calc |rv s| * |rv consts.LN_2| ≤ 1 * 1 := mul_le_mul hsabs hlabs (abs_nonneg _) (by norm_num)
+      _ ≤ 2 ^ 1019 := by norm_num
+  obtain ⟨mvw, hm⟩ := mul_rv svw lnvw hprod
+  generalize hmdef : arithmetic.impl_Mul_TwoFloat_for_TwoFloat.mul s consts.LN_2 = m at *
+  -- r = m / 512
+  obtain ⟨rvw, hr⟩ := div_pow2_gen mvw lit512_isVal (by norm_num) (by norm_num)
+  generalize hrdef : arithmetic.impl_Div_f64_for_TwoFloat.div m (f64lit 0x4080000000000000) = r at *
+  obtain ⟨hrρ, hrabs⟩ := reduce_real hδabs hs hl hm hr
+  set ρ := δ * Real.log 2 / 512 with hρdef
+  have hρabs : |ρ| ≤ 35 / 100 / 512 := by
+    rw [hρdef, abs_div, abs_of_pos (by norm_num : (0 : ℝ) < 512)]
+    refine div_le_div_of_nonneg_right ?_ (by norm_num)
+    rw [abs_mul, abs_of_pos (by linarith : (0 : ℝ) < Real.log 2)]
+    calc |δ| * Real.log 2 ≤ 501 / 1000 * (6932 / 10000) := mul_le_mul hδabs l2 (by linarith) (by norm_num)
+      _ ≤ 35 / 100 := by norm_num
+  -- the polynomial
+  rw [polyFold_eq2]
+  obtain ⟨pvw, hp⟩ := horner2_bound rvw hrabs
+  have hp0 := p0_real hρabs hrρ hp
+  -- nine squarings
+  obtain ⟨tvw, ht⟩ := sq_iter pvw hρabs hp0 9 (le_refl _)
+  have e512 : (2 : ℝ) ^ 9 * ρ = δ * Real.log 2 := by rw [hρdef]; norm_num; ring
+  rw [e512] at ht
+  have hδl : |δ * Real.log 2| ≤ 35 / 100 := by
+    rw [← e512, abs_mul, abs_of_pos (by positivity : (0 : ℝ) < 2 ^ 9)]
+    calc (2 : ℝ) ^ 9 * |ρ| ≤ 2 ^ 9 * (35 / 100 / 512) := mul_le_mul_of_nonneg_left hρabs (by positivity)
+      _ = 35 / 100 := by norm_num
+  obtain ⟨E1, E2⟩ := exp_range_small hδl
+  have heb9 := eb_nine
+  have heb0 := eb_nonneg 9
+  unfold C14p.exp2Tail
+  rw [sq9_eq]
+  generalize hp0def : hp2 r 11 = p0 at *
+  generalize htdef : sqn 9 p0 = t at *
+  have hxq : rv x = (q : ℝ) + δ := by rw [hδ]; ring
+  by_cases hq0 : q = 0
+  · have : (F64.round x.hi ==. f64lit 0x0000000000000000) = true := by
+      rw [req_eq, Ident.f64lit_zero, eq_iff_toInt kf rfl, kq, hq0, toInt_zero]; ring
+    rw [this, if_pos rfl]
+    refine ⟨tvw, ?_⟩
+    have e : rv x * Real.log 2 = δ * Real.log 2 := by rw [hxq, hq0]; push_cast; ring
+    rw [e]
+    refine le_trans ht ?_
+    exact mul_le_mul_of_nonneg_right (le_trans heb9 (by norm_num)) (Real.exp_pos _).le
+  · have hne : (F64.round x.hi ==. f64lit 0x0000000000000000) = false := by
+      rw [req_eq, Ident.f64lit_zero, Bool.eq_false_iff]
+      intro hc
+      have := (eq_iff_toInt kf rfl).1 hc
+      rw [kq, toInt_zero] at this
+      rcases mul_eq_zero.1 this with h | h
+      · exact hq0 h
+      · have : (0 : ℤ) < 2 ^ 1074 := by positivity
+        omega
+    rw [hne]
+    simp only [Bool.false_eq_true, if_false]
+    have hcast : (RCast.cast (F64.round x.hi) : I32) = ⟨q⟩ :=
+      PF.cast_f64_i32 kf (by rw [kq, hUe]) (by omega)
+    rw [hcast, C14p.mul_pow2_eq _ q (by omega) (by omega), C14p.mul_pow2_eq _ q (by omega) (by omega)]
+    obtain ⟨j, hj⟩ : ∃ j : ℕ, (q + 1074).toNat = j := ⟨_, rfl⟩
+    have hjq : (j : ℤ) = q + 1074 := by omega
+    rw [hj]
+    -- the range of t
+    obtain ⟨t1, t2⟩ := abs_le.1 ht
+    have hsm : eb 9 * Real.exp (δ * Real.log 2) ≤ 1 / 100 := by
+      have : eb 9 ≤ 1 / 200 := le_trans heb9 (by norm_num)
+      nlinarith
+    obtain ⟨svw', hsc⟩ := scale_pow2W tvw (by linarith) (by linarith) j (by omega) (by omega)
+    refine ⟨svw', ?_⟩
+    have hS := exp_int_log_two q j hjq
+    have hSlo : (1 : ℝ) / 2 ^ 970 ≤ 2 ^ j / 2 ^ 1074 := by
+      rw [div_le_div_iff₀ (by positivity) (by positivity), one_mul, ← pow_add]
+      exact pow_le_pow_right₀ (by norm_num) (by omega)
+    have core := final_realW E1 hSlo ht heb0 heb9 hsc
+    have e : rv x * Real.log 2 = δ * Real.log 2 + (q : ℝ) * Real.log 2 := by rw [hxq]; ring
+    rw [e, Real.exp_add, hS]
+    exact core
+
+
+end exp2wide
+
+
+/-! ## 10. `log2` with the wider `exp2` range: `Log2Bound.log2_step` / `log2_bound_of` for high words in `[2^-1000, 2^960]` -/
+
+section log2wide
+open F64 TwoFloat
+
+/-- accuracy hypothesis on `exp2` over `[−961, 1001]` -/
+def Exp2AccW (dE : ℝ) : Prop :=
+  ∀ y : TwoFloat, y.Valid → y.WF → -961 ≤ rv y → rv y ≤ 1001 →
+    VW (TwoFloat.exp2 y) ∧
+    |rv (TwoFloat.exp2 y) - Real.exp (rv y * Real.log 2)| ≤ dE * Real.exp (rv y * Real.log 2)
+
+theorem exp2_accW : Exp2AccW (5640 / 2 ^ 106) := fun y hv hw h1 h2 => exp2_bound_wide y hv hw h1 h2
+
+/-- **one Newton step of `log2` on pairs**, `x ← x + (v·exp2(−x) − 1)·FRAC_1_LN_2`, with `ℓ = log₂ v ∈ [−1000.5, 960.5]` (`Log2Bound.log2_step` with the wider `exp2` range) -/
+theorem log2_stepW {dE : ℝ} (H : Exp2AccW dE) (hdE0 : 0 ≤ dE) (hdE : dE ≤ 1 / 2 ^ 80)
+    {v x : TwoFloat} (hv : VW v) (hx : VW x) (hpos : 0 < rv v)
+    (hL1 : -(10005 / 10) ≤ Real.log (rv v) / Real.log 2) (hL2 : Real.log (rv v) / Real.log 2 ≤ 9605 / 10)
+    (he : |rv x - Real.log (rv v) / Real.log 2| ≤ 1 / 2 ^ 20) :
+    VW (arithmetic.impl_Add_TwoFloat_for_TwoFloat.add x (Log2Bound.corr2 v x)) ∧
+    |rv (arithmetic.impl_Add_TwoFloat_for_TwoFloat.add x (Log2Bound.corr2 v x)) - Real.log (rv v) / Real.log 2|
+      ≤ 7 / 10 * (rv x - Real.log (rv v) / Real.log 2) ^ 2 + 14431 / 10000 * dE + 11 / 2 ^ 106
+        + 4 / 2 ^ 106 * |Real.log (rv v) / Real.log 2| := by
+  obtain ⟨hc1, hc2⟩ := Log2Bound.log_two_range
+  have hc0 : 0 < Real.log 2 := by linarith
+  set c := Real.log 2 with hc
+  set ℓ := Real.log (rv v) / c with hℓ
+  obtain ⟨e1, e2⟩ := abs_le.1 he
+  have h20 : (1 : ℝ) / 2 ^ 20 ≤ 1 / 10 := by norm_num
+  have hN := VW_neg hx
+  have hNr := rv_neg x
+  obtain ⟨hE, hEb⟩ := H (arithmetic.impl_Neg_for_TwoFloat.neg x) hN.1 hN.2
+    (by rw [hNr]; linarith) (by rw [hNr]; linarith)
+  rw [hNr] at hEb
+  have hvexp : Real.exp (ℓ * c) = rv v := by
+    rw [hℓ, div_mul_cancel₀ _ hc0.ne', Real.exp_log hpos]
+  have eqx : -rv x * c = -(ℓ * c + (rv x - ℓ) * c) := by ring
+  rw [eqx] at hEb
+  unfold Log2Bound.corr2
+  generalize TwoFloat.exp2 (arithmetic.impl_Neg_for_TwoFloat.neg x) = Ex at *
+  -- the product v·E ∈ [1/2, 2]
+  have hec : |(rv x - ℓ) * c| ≤ 1 / 2 ^ 19 := by
+    rw [abs_mul, abs_of_pos hc0]
+    calc |rv x - ℓ| * c ≤ 1 / 2 ^ 20 * 1 := mul_le_mul he (by linarith) hc0.le (by positivity)
+      _ ≤ 1 / 2 ^ 19 := by norm_num
+  have hd37 : dE ≤ 1 / 2 ^ 80 := hdE
+  have hr12 : 1 / 2 ≤ rv v * rv Ex ∧ rv v * rv Ex ≤ 2 := by
+    have ht := Real.exp_pos (-((rv x - ℓ) * c))
+    have et : Real.exp (ℓ * c) * Real.exp (-(ℓ * c + (rv x - ℓ) * c)) = Real.exp (-((rv x - ℓ) * c)) := by
+      rw [← Real.exp_add]; congr 1; ring
+    have hvp := Real.exp_pos (ℓ * c)
+    have h1 : |Real.exp (ℓ * c) * rv Ex - Real.exp (-((rv x - ℓ) * c))| ≤ dE * Real.exp (-((rv x - ℓ) * c)) := by
+      rw [← et, ← mul_sub, abs_mul, abs_of_pos hvp]
+      calc Real.exp (ℓ * c) * |rv Ex - Real.exp (-(ℓ * c + (rv x - ℓ) * c))|
+          ≤ Real.exp (ℓ * c) * (dE * Real.exp (-(ℓ * c + (rv x - ℓ) * c))) := mul_le_mul_of_nonneg_left hEb hvp.le
+        _ = dE * (Real.exp (ℓ * c) * Real.exp (-(ℓ * c + (rv x - ℓ) * c))) := by ring
+    obtain ⟨_, h2⟩ := exp_neg_small hec (by norm_num)
+    obtain ⟨a1, a2⟩ := abs_le.1 h1
+    obtain ⟨b1, b2⟩ := abs_le.1 h2
+    have h3 : dE * Real.exp (-((rv x - ℓ) * c)) ≤ 1 / 2 ^ 80 * Real.exp (-((rv x - ℓ) * c)) :=
+      mul_le_mul_of_nonneg_right hdE ht.le
+    rw [hvexp] at a1 a2
+    constructor <;> nlinarith
+  have habs : |rv v * rv Ex| = rv v * rv Ex := abs_of_pos (by linarith [hr12.1])
+  obtain ⟨hP, hPb⟩ := mul_rv_rel hv hE (by rw [habs]; exact le_trans (by norm_num) hr12.1)
+    (by rw [habs]; exact le_trans hr12.2 (by norm_num))
+  have hP4 : |rv (arithmetic.impl_Mul_TwoFloat_for_TwoFloat.mul v Ex)| ≤ 4 := by
+    rw [habs] at hPb
+    obtain ⟨p1, p2⟩ := abs_le.1 hPb
+    rw [abs_le]
+    constructor <;> nlinarith [hr12.1, hr12.2]
+  rw [← hvexp] at hPb
+  generalize arithmetic.impl_Mul_TwoFloat_for_TwoFloat.mul v Ex = P at *
+  obtain ⟨hS, hSb⟩ := sub_one_rv hP (le_trans hP4 (by norm_num))
+  generalize arithmetic.impl_Sub_f64_for_TwoFloat.sub P (f64lit 0x3ff0000000000000) = S at *
+  have hSabs : |rv S| ≤ 10 := by
+    obtain ⟨p1, p2⟩ := abs_le.1 hP4
+    have h1 : |rv P - 1| ≤ 5 := abs_le.2 ⟨by linarith, by linarith⟩
+    have h2 := abs_sub_abs_le_abs_sub (rv S) (rv P - 1)
+    have h3 : (1 : ℝ) / 2 ^ 105 * |rv P - 1| ≤ 1 * 5 := mul_le_mul (by norm_num) h1 (abs_nonneg _) (by norm_num)
+    linarith
+  -- the product with 1/ln 2
+  have hFerr := Log2Bound.FRAC_1_LN_2_err
+  rw [← hc] at hFerr
+  have hFabs : |rv explog.FRAC_1_LN_2| ≤ 2 := by
+    have hic : 1 / c ≤ 1444 / 1000 := by rw [div_le_iff₀ hc0]; nlinarith
+    have hic0 : 0 < 1 / c := by positivity
+    have h1 := abs_sub_abs_le_abs_sub (rv explog.FRAC_1_LN_2) (1 / c)
+    rw [abs_sub_comm, abs_of_pos hic0] at h1
+    have : 1 / c / 2 ^ 107 ≤ 1 / c := div_le_self hic0.le (by norm_num)
+    linarith
+  obtain ⟨hM, hMb⟩ := mul_rv hS Log2Bound.FRAC_1_LN_2_facts.1 (by
+    rw [abs_mul]
+    calc |rv S| * |rv explog.FRAC_1_LN_2| ≤ 10 * 2 := mul_le_mul hSabs hFabs (abs_nonneg _) (by norm_num)
+      _ ≤ 2 ^ 1019 := by norm_num)
+  generalize arithmetic.impl_Mul_TwoFloat_for_TwoFloat.mul S explog.FRAC_1_LN_2 = M at *
+  have hMabs : |rv M| ≤ 2 ^ 1000 := by
+    have h1 : |rv S * rv explog.FRAC_1_LN_2| ≤ 20 := by
+      rw [abs_mul]
+      calc |rv S| * |rv explog.FRAC_1_LN_2| ≤ 10 * 2 := mul_le_mul hSabs hFabs (abs_nonneg _) (by norm_num)
+        _ = 20 := by norm_num
+    have h2 := abs_sub_abs_le_abs_sub (rv M) (rv S * rv explog.FRAC_1_LN_2)
+    have h3 : (7 : ℝ) / 2 ^ 106 * |rv S * rv explog.FRAC_1_LN_2| ≤ 1 * 20 :=
+      mul_le_mul (by norm_num) h1 (abs_nonneg _) (by norm_num)
+    have h4 : (1 : ℝ) / 2 ^ 950 ≤ 1 := by
+      rw [div_le_one (by positivity)]; exact one_le_pow₀ (by norm_num)
+    have : |rv M| ≤ 41 := by linarith
+    exact le_trans this (by norm_num)
+  have hxabs : |rv x| ≤ 2 ^ 1000 := by
+    have : |rv x| ≤ 1002 := abs_le.2 ⟨by linarith, by linarith⟩
+    exact le_trans this (by norm_num)
+  obtain ⟨hX, hXb⟩ := add_rv hx hM hxabs hMabs
+  refine ⟨hX, ?_⟩
+  have e3 : rv x = ℓ + (rv x - ℓ) := by ring
+  rw [e3] at hXb
+  exact Log2Bound.log2_step_real hc1 hc2 he hdE0 hdE hEb hPb hSb hFerr hMb hXb
+
+
+/-- **accuracy of `TwoFloat::log2`, given the accuracy `dE` of `exp2` and `η₀` of the seed**: for a valid `v` with high
+word in `[2^-1000, 2^960]` (`Log2Bound.log2_bound_of` with the wider `exp2` range), with `D = 1.4431·dE + 11u² + 4u²·|log₂ v|`:
+`|log2(v) − log₂ v| ≤ 0.7·(0.7·(η₀ + 2^-50)² + D)² + D` -/
+theorem log2_bound_ofW {dE η0 : ℝ} (H : Exp2AccW dE) (hdE0 : 0 ≤ dE) (hdE : dE ≤ 1 / 2 ^ 80)
+    (hη0 : 0 ≤ η0) (hη : η0 ≤ 1 / 2 ^ 21)
+    (v : TwoFloat) (hv : v.Valid) (hw : v.WF)
+    (hlo : 1 / 2 ^ 1000 ≤ fv v.hi) (hhi : fv v.hi ≤ 2 ^ 960)
+    (hseed : (Libm.log2 v.hi).is_finite = true ∧
+      |fv (Libm.log2 v.hi) - Real.log (fv v.hi) / Real.log 2| ≤ η0) :
+    VW (TwoFloat.log2 v) ∧
+    |rv (TwoFloat.log2 v) - Real.log (rv v) / Real.log 2|
+      ≤ 7 / 10 * (7 / 10 * (η0 + 1 / 2 ^ 50) ^ 2 + (14431 / 10000 * dE + 11 / 2 ^ 106
+          + 4 / 2 ^ 106 * |Real.log (rv v) / Real.log 2|)) ^ 2
+        + (14431 / 10000 * dE + 11 / 2 ^ 106 + 4 / 2 ^ 106 * |Real.log (rv v) / Real.log 2|) := by
+  obtain ⟨hc1, hc2⟩ := Log2Bound.log_two_range
+  have hc0 : 0 < Real.log 2 := by linarith
+  have hhpos : 0 < fv v.hi := lt_of_lt_of_le (by positivity) hlo
+  obtain ⟨hpos, hnear, _⟩ := log_rv_near_hi hv hhpos
+  have g1 : -1000 ≤ Real.log (fv v.hi) / Real.log 2 := by
+    have := Real.log_le_log (by positivity) hlo
+    rw [one_div, Real.log_inv, Real.log_pow] at this
+    rw [le_div_iff₀ hc0]
+    push_cast at this
+    linarith
+  have g2' : Real.log (fv v.hi) / Real.log 2 ≤ 960 := by
+    have := Real.log_le_log hhpos hhi
+    rw [Real.log_pow] at this
+    rw [div_le_iff₀ hc0]
+    push_cast at this
+    linarith
+  -- log₂(hi + lo) versus log₂ hi
+  have hnear2 : |Real.log (rv v) / Real.log 2 - Real.log (fv v.hi) / Real.log 2| ≤ 1 / 2 ^ 51 := by
+    rw [← sub_div, abs_div, abs_of_pos hc0, div_le_iff₀ hc0]
+    refine le_trans hnear ?_
+    have : (1 : ℝ) / 2 ^ 51 * (693 / 1000) ≤ 1 / 2 ^ 51 * Real.log 2 := mul_le_mul_of_nonneg_left hc1 (by positivity)
+    have : (1 : ℝ) / 2 ^ 52 ≤ 1 / 2 ^ 51 * (693 / 1000) := by norm_num
+    linarith
+  obtain ⟨n1, n2⟩ := abs_le.1 hnear2
+  have h51 : (1 : ℝ) / 2 ^ 51 ≤ 1 / 10 := by norm_num
+  set ℓ := Real.log (rv v) / Real.log 2 with hℓ
+  have hL1 : -(10005 / 10) ≤ ℓ := by linarith
+  have hL2 : ℓ ≤ 9605 / 10 := by linarith
+  have hVpos : 0 < v.V := by
+    have : (0 : ℝ) < (v.V : ℝ) := by
+      have : rv v = (v.V : ℝ) / 2 ^ 1074 := rfl
+      rw [this] at hpos
+      exact (div_pos_iff_of_pos_right (by positivity)).1 hpos
+    exact_mod_cast this
+  set D := 14431 / 10000 * dE + 11 / 2 ^ 106 + 4 / 2 ^ 106 * |ℓ| with hD
+  have hD0 : 0 ≤ D := by positivity
+  have hDs : D ≤ 1 / 2 ^ 78 := by
+    have hℓabs : |ℓ| ≤ 1001 := abs_le.2 ⟨by linarith, by linarith⟩
+    have h1 : (14431 : ℝ) / 10000 * dE ≤ 14431 / 10000 * (1 / 2 ^ 80) := mul_le_mul_of_nonneg_left hdE (by norm_num)
+    have h2 : (4 : ℝ) / 2 ^ 106 * |ℓ| ≤ 4 / 2 ^ 106 * 1001 := mul_le_mul_of_nonneg_left hℓabs (by positivity)
+    have : (14431 : ℝ) / 10000 * (1 / 2 ^ 80) + 11 / 2 ^ 106 + 4 / 2 ^ 106 * 1001 ≤ 1 / 2 ^ 78 := by norm_num
+    linarith
+  cases hone : base.impl_PartialEq_f64_for_TwoFloat.eq v (f64lit 0x3ff0000000000000)
+  · have hle : ROrd.isLe (base.impl_PartialOrd_f64_for_TwoFloat.partial_cmp v (f64lit 0)) = false := by
+      rw [Ident.f64lit_zero, partial_cmp_tf_exact_of F64.roundFacts hv (WF_zero false) rfl, Bool.eq_false_iff]
+      intro hc
+      have := ROrd.isLe_ofInts.1 hc
+      rw [toInt_zero] at this
+      omega
+    rw [Log2Bound.log2_eq_steps v hone hle]
+    dsimp only
+    have hLw : (Libm.log2 v.hi).WF := PF.libm_log2_WF hw.1
+    have hx0 : VW (convert.impl_From_f64_for_TwoFloat.from (Libm.log2 v.hi)) ∧
+        rv (convert.impl_From_f64_for_TwoFloat.from (Libm.log2 v.hi)) = fv (Libm.log2 v.hi) := by
+      rw [from_eq]
+      obtain ⟨p1, p2, p3⟩ := pair_zero_spec hseed.1 hLw
+      refine ⟨⟨p2, p3⟩, ?_⟩
+      unfold rv fv; rw [p1]
+    generalize convert.impl_From_f64_for_TwoFloat.from (Libm.log2 v.hi) = x0 at *
+    have he0 : |rv x0 - ℓ| ≤ η0 + 1 / 2 ^ 50 := by
+      rw [hx0.2]
+      obtain ⟨s1, s2⟩ := abs_le.1 hseed.2
+      rw [abs_le]
+      have : (1 : ℝ) / 2 ^ 51 ≤ 1 / 2 ^ 50 := by norm_num
+      constructor <;> linarith
+    have he0' : |rv x0 - ℓ| ≤ 1 / 2 ^ 20 := by
+      refine le_trans he0 ?_
+      have : (1 : ℝ) / 2 ^ 21 + 1 / 2 ^ 50 ≤ 1 / 2 ^ 20 := by norm_num
+      linarith
+    obtain ⟨hx1, hb1⟩ := log2_stepW H hdE0 hdE ⟨hv, hw⟩ hx0.1 hpos hL1 hL2 he0'
+    generalize arithmetic.impl_Add_TwoFloat_for_TwoFloat.add x0 (Log2Bound.corr2 v x0) = x1 at *
+    have hsq0 : (rv x0 - ℓ) ^ 2 ≤ (η0 + 1 / 2 ^ 50) ^ 2 := by
+      rw [← sq_abs]; exact pow_le_pow_left₀ (abs_nonneg _) he0 2
+    have he1 : |rv x1 - ℓ| ≤ 7 / 10 * (η0 + 1 / 2 ^ 50) ^ 2 + D := by
+      rw [hD]; linarith
+    have he1' : |rv x1 - ℓ| ≤ 1 / 2 ^ 20 := by
+      refine le_trans he1 ?_
+      have : (η0 + 1 / 2 ^ 50) ^ 2 ≤ (1 / 2 ^ 20) ^ 2 := by
+        apply pow_le_pow_left₀ (by positivity)
+        have : (1 : ℝ) / 2 ^ 21 + 1 / 2 ^ 50 ≤ 1 / 2 ^ 20 := by norm_num
+        linarith
+      have e : (7 : ℝ) / 10 * (1 / 2 ^ 20) ^ 2 + 1 / 2 ^ 78 ≤ 1 / 2 ^ 20 := by norm_num
+      linarith
+    obtain ⟨hx2, hb2⟩ := log2_stepW H hdE0 hdE ⟨hv, hw⟩ hx1 hpos hL1 hL2 he1'
+    refine ⟨hx2, le_trans hb2 ?_⟩
+    have hsq1 : (rv x1 - ℓ) ^ 2 ≤ (7 / 10 * (η0 + 1 / 2 ^ 50) ^ 2 + D) ^ 2 := by
+      rw [← sq_abs]; exact pow_le_pow_left₀ (abs_nonneg _) he1 2
+    rw [hD] at hsq1 ⊢
+    linarith
+  · -- `v == 1.0`
+    rw [C15.log2_one v hone, C15.zero_words]
+    have hV1 : rv v = 1 := by
+      unfold base.impl_PartialEq_f64_for_TwoFloat.eq at hone
+      rw [Bool.and_eq_true, req_eq, req_eq, eq_iff_toInt hv.1 C01d.one_isVal.1, Ident.f64lit_zero,
+        eq_iff_toInt hv.2.1 rfl, C01d.one_isVal.2, toInt_zero] at hone
+      unfold rv TwoFloat.V
+      rw [hone.1, hone.2, unit_cast_eq]
+      simp only [add_zero, Int.cast_pow, Int.cast_ofNat]
+      exact div_self (by positivity : ((2 : ℝ) ^ 1074) ≠ 0)
+    have hz : VW (⟨F64.zero, F64.zero⟩ : TwoFloat) := ⟨by decide +kernel, by decide +kernel⟩
+    have hz0 : rv (⟨F64.zero, F64.zero⟩ : TwoFloat) = 0 := by
+      unfold rv
+      rw [show (⟨F64.zero, F64.zero⟩ : TwoFloat).V = 0 by decide +kernel]
+      simp
+    refine ⟨hz, ?_⟩
+    have hℓ0 : ℓ = 0 := by rw [hℓ, hV1, Real.log_one, zero_div]
+    rw [hz0, hℓ0]
+    simp only [sub_zero, abs_zero]
+    positivity
+
+
+end log2wide
 
 end Log1pBound
